@@ -27,7 +27,7 @@ ASSUMPTIONS = ["no claim between lattice points of continuous parameters",
                "distance to the start within the same tolerance, initial bearing within tolerance/sin(r)"]
 
 
-def points(seed):
+def points(seed, tier="quick"):
     s = core.seed_shift(seed, 0, 1.0)
     P = [(0.0, 90.0), (123.0, 90.0), (0.0, -90.0), (200.0, -90.0),
          (0.0, 0.0), (359.9999999, 0.0), (0.0, 45.0), (359.999, 45.0),
@@ -41,17 +41,39 @@ def points(seed):
     for k in range(1, 10):
         P.append((260.0, -30.0 + 10.0 ** -k))
     assert len(P) == 40, len(P)
+    if tier != "quick":
+        # thorough: 40 more letters - poles approached at 1e-k, the RA wrap from both sides at several declinations, the
+        # equator from both sides, and a second seed-shifted general lattice
+        for k in (2, 4, 6, 8):
+            P.append((45.0, 90.0 - 10.0 ** -k))
+            P.append((225.0, -90.0 + 10.0 ** -k))
+        for dec in (-60.0, -1e-7, 1e-7, 60.0):
+            P.append((1e-9, dec))
+            P.append((360.0 - 1e-9, dec))
+        for i in range(24):
+            P.append(((15.0 * i + 7.5 + s) % 360.0, -82.5 + 7.0 * i + s / 2))
+        assert len(P) == 80, len(P)
     return P
 
 
 R_SET = [0.0, 1e-6, 1.0, 60.0, 179.0]
 T_SET = [15.0 * i for i in range(24)]
+R_SET_T = [0.0, 1e-9, 1e-6, 1e-3, 1.0, 60.0, 90.0, 120.0, 179.0]
+T_SET_T = [5.0 * i for i in range(72)]
+
+
+def rset(tier):
+    return R_SET if tier == "quick" else R_SET_T
+
+
+def tset(tier):
+    return T_SET if tier == "quick" else T_SET_T
 DMS_OFFS = [Fraction(0), Fraction(-1, 10 ** 9) / 3600, Fraction(-4, 1000) / 3600, Fraction(-6, 1000) / 3600,
             Fraction(4, 1000) / 3600, Fraction(-5, 1000) / 3600, Fraction(5, 1000) / 3600]
 
 
 def axes(tier, seed):
-    return dict(points=points(seed), r=R_SET, theta=T_SET,
+    return dict(points=points(seed, tier), r=rset(tier), theta=tset(tier),
                 dms_boundaries="every (deg, min) of 0..89 x 0..59 (+90:00), offsets %s arcsec, both signs"
                                % [float(o * 3600) for o in DMS_OFFS],
                 hms_boundaries="every (hour, min) of 0..23 x 0..59, same offsets in seconds of time",
@@ -59,7 +81,7 @@ def axes(tier, seed):
 
 
 def cases(tier, seed):
-    n = 40
+    n = len(points(seed, tier))
     for i in range(n):
         yield "gcd_pairs", dict(i=i)
     for i in range(n):
@@ -96,7 +118,7 @@ def _bear_tol(sep):
 
 
 def ev_gcd_pairs(case, ctx):
-    P = points(ctx.seed)
+    P = points(ctx.seed, ctx.tier)
     i = case["i"]
     a = P[i]
     ras = np.array([p[0] for p in P])
@@ -129,7 +151,7 @@ def ev_gcd_pairs(case, ctx):
 
 
 def ev_bear_pairs(case, ctx):
-    P = points(ctx.seed)
+    P = points(ctx.seed, ctx.tier)
     i = case["i"]
     a = P[i]
     if abs(a[1]) == 90:
@@ -156,7 +178,7 @@ def ev_bear_pairs(case, ctx):
 
 
 def ev_triangle(case, ctx):
-    P = points(ctx.seed)
+    P = points(ctx.seed, ctx.tier)
     i = case["i"]
     ras = np.array([p[0] for p in P])
     decs = np.array([p[1] for p in P])
@@ -177,7 +199,7 @@ def ev_triangle(case, ctx):
 def ev_arrays(case, ctx):
     """every function with float ndarray arguments in every argument position: same answers as the scalar calls, the
     caller's arrays are left untouched, and a second call with the same arrays gives the same answer"""
-    P = [p for p in points(ctx.seed) if abs(p[1]) < 89.9]
+    P = [p for p in points(ctx.seed, ctx.tier) if abs(p[1]) < 89.9]
     ra = np.array([p[0] for p in P], dtype=np.float64)
     dec = np.array([p[1] for p in P], dtype=np.float64)
     n = len(P)
@@ -224,12 +246,12 @@ def ev_arrays(case, ctx):
 
 
 def ev_translate(case, ctx):
-    P = points(ctx.seed)
+    P = points(ctx.seed, ctx.tier)
     a = P[case["i"]]
     # starts AT a pole are included: the bearing is then counted from the meridian of the given right ascension (the limit of
     # the definition along that meridian), which is what the pixel-beam computation of an image centred on a pole relies on
-    for r in R_SET:
-        th = np.array(T_SET) + core.seed_shift(ctx.seed, 3, 15.0)
+    for r in rset(ctx.tier):
+        th = np.array(tset(ctx.tier)) + core.seed_shift(ctx.seed, 3, 15.0)
         ra_v, dec_v = at.translate(a[0], a[1], r, th)
         for k, t in enumerate(th):
             ctx.count("translate")
